@@ -595,7 +595,23 @@ def _gen_cases(tier, seed):
     cases += cell_cases(thorough)
     # structural tie of the emit_assign model: the real NetlistEmitter.emit_assign on generated targets
     cases += ea_cases(seed, 360 if not thorough else 6000)
+    # regression of /repo 961f42e (a slice / part-select of a choice between values of different widths)
+    for d in eaw_designs():
+        cases.append({"k": "eaw", "d": d})
     return cases
+
+
+def eaw_designs():
+    """Array([a, s[0:2]])[sel].bit_select(off, 3) <= 7 and Array([a, s[0:2]])[sel][1:3] <= 3, all sel / off values"""
+    sigs = [{"w": 1, "sg": False, "init": 0, "rl": False}, {"w": 2, "sg": False, "init": 0, "rl": False},
+            {"w": 4, "sg": False, "init": 0, "rl": False}, {"w": 8, "sg": False, "init": 0, "rl": False}]
+    arr = ["sw", ["s", 0], [[["1"], ["s", 2]], [None, ["sl", ["s", 3], 0, 2]]]]
+    stim = [["data", [[["s", 0], v], [["s", 1], o]]] for v in (0, 1) for o in range(4)]
+    out = []
+    for lhs, val in ((["pt", arr, ["s", 1], 3, 1], ["c", 7, 3, False]), (["sl", arr, 1, 3], ["c", 3, 2, False])):
+        out.append({"sigs": sigs, "doms": [], "mods": [{"parent": None, "name": "m0", "blocks": [["comb", [["as", lhs, val]]]]}],
+                    "ins": [0, 1], "outs": [2, 3], "rename": False, "mem": None, "stim": stim})
+    return out
 
 
 def prio_designs():
@@ -1359,6 +1375,8 @@ def classify(c):
         return "op:" + (t[1] if t[0] in ("o1", "o2") else t[0])
     if c["k"] == "arst":
         return "arst:handwritten"
+    if c["k"] == "eaw":
+        return "eaw:witness"
     if c["k"] == "al":
         return "al:mods%d" % len(d["mods"])
     nm = len(d["mods"])
